@@ -10,6 +10,8 @@ judge   (always, on the implementation; parts/roundtrip.py)  minify_print(tree, 
         ASI inserts) equals that of the original (comments dropped; modulo (a), directly nested parentheses and trailing
         commas of array/object literals, which the tree does not record), with drop_semi only `;` tokens of removed empty
         statements may vanish; M6 without drop_semi the output relies on no ASI.
+        Fixed in /repo and therefore no longer classes of known findings (a return is a VIOLATION): KF-02a `a / /re/` ->
+        `a//re/` (9cebc23), KF-02d `while(a);` losing its body `;` under drop_semi (c249e7a).
         Inputs: as C01 plus the targeted token-adjacency generator (every token class x slot, parts/roundtrip.py).
 """
 import specclient
